@@ -1684,6 +1684,14 @@ class SourceFinder(object):
                     [src.ra, src.dec])
                 source_x -= 1
                 source_y -= 1
+                if not (np.isfinite(source_x) and np.isfinite(source_y)):
+                    # no pixel position at all (e.g. beyond the horizon of
+                    # the image projection): certainly not within the image
+                    self.log.debug(
+                        "Source ({0},{1}) has no pixel position: skipping"
+                        .format(src.island, src.source)
+                    )
+                    continue
                 x = int(round(source_x))
                 y = int(round(source_y))
 
